@@ -63,6 +63,7 @@ struct Shape {
   std::vector<double> w;             // relative stream length per sketch
   std::vector<int> cfg;
   double p_view, p_rt, p_move;
+  std::vector<int> quantum;          // per sketch: if > 0 the stream length of a non-root sketch is rounded to a multiple of it (classic: 2k -> empty base buffer)
   double p_qbm = 0;                  // probability of querying the destination immediately before (and the result right after) a merge
   int value_mode;                    // 0 random distinct, 1 ascending, 2 descending, 3 small domain, 4 zipf-ish, 5 per-sketch disjoint ranges, 6 two-point
   int domain;
@@ -90,11 +91,11 @@ inline void emit(const Shape& sh, int i, const std::vector<int>& len, Rng& r, Sc
       if (allow_rt && r.chance(sh.p_rt)) { sc.ops.push_back(Op{OP_RT, static_cast<uint8_t>(e), 0, 0.f}); sc.has_rt = true; }
       // a monitoring loop queries a sketch between updates and merges: the query may sort level 0 / the base buffer as a
       // side effect and leave "is sorted" state behind that the merge has to invalidate
-      if (r.chance(sh.p_qbm)) { sc.ops.push_back(Op{OP_VIEW, static_cast<uint8_t>(i), static_cast<uint8_t>(r.below(3)), 0.f}); sc.has_query_before_merge = true; }
+      if (r.chance(sh.p_qbm)) { sc.ops.push_back(Op{OP_VIEW, static_cast<uint8_t>(i), static_cast<uint8_t>(r.below(4)), 0.f}); sc.has_query_before_merge = true; }
       if (r.chance(sh.p_qbm * 0.3)) sc.ops.push_back(Op{OP_VIEW, static_cast<uint8_t>(e), static_cast<uint8_t>(r.below(3)), 0.f});
       sc.ops.push_back(Op{r.chance(sh.p_move) ? OP_MERGE_MOVE : OP_MERGE, static_cast<uint8_t>(i), static_cast<uint8_t>(e), 0.f});
       sc.has_merge = true;
-      if (r.chance(sh.p_qbm * 0.5)) sc.ops.push_back(Op{OP_VIEW, static_cast<uint8_t>(i), 0, 0.f});   // sorted view right after the merge (checked for order)
+      if (r.chance(sh.p_qbm * 0.7)) sc.ops.push_back(Op{OP_VIEW, static_cast<uint8_t>(i), 3, 0.f});   // right after the merge: fresh sorted view checked, all query methods compared with it
       if (allow_rt && r.chance(sh.p_rt * 0.5)) { sc.ops.push_back(Op{OP_RT, static_cast<uint8_t>(i), 0, 0.f}); sc.has_rt = true; }
     }
   }
@@ -107,6 +108,7 @@ inline Scenario build(const Shape& sh, int total_len, bool allow_rt) {
   std::vector<int> len(sh.nsk);
   for (int i = 0; i < sh.nsk; ++i) len[i] = static_cast<int>(sh.w[i] / wsum * total_len);
   { int used = 0; for (int i = 0; i < sh.nsk; ++i) used += len[i]; len[sh.w[0] > 0 ? 0 : sh.nsk - 1] += total_len - used; }   // rounding remainder
+  for (int i = 1; i < sh.nsk; ++i) if (i < static_cast<int>(sh.quantum.size()) && sh.quantum[i] > 0) len[i] = std::max(1, (len[i] + sh.quantum[i] / 2) / sh.quantum[i]) * sh.quantum[i];
   Rng r(mix64(sh.seed, 0xA11CE));
   emit(sh, 0, len, r, sc, allow_rt);
   // values (the compaction schedule never depends on them)
@@ -145,11 +147,42 @@ inline std::string program_text(const Scenario& sc, size_t max_ops = 600) {
       case OP_UPD: os << "u" << int(o.a) << ":" << o.v << " "; break;
       case OP_MERGE: os << "m" << int(o.a) << "<-" << int(o.b) << " "; break;
       case OP_MERGE_MOVE: os << "mm" << int(o.a) << "<-" << int(o.b) << " "; break;
-      case OP_VIEW: os << (o.b == 0 ? "v" : o.b == 1 ? "qr" : "qq") << int(o.a) << " "; break;
+      case OP_VIEW: os << (o.b == 0 ? "v" : o.b == 1 ? "qr" : o.b == 2 ? "qq" : "chk") << int(o.a) << " "; break;
       case OP_RT: os << "rt" << int(o.a) << " "; break;
     }
   }
   return os.str();
+}
+
+// Every query method of a sketch must answer from its CURRENT contents: get_rank / get_quantile / get_CDF / get_PMF are
+// compared with the same functions of a freshly built get_sorted_view() (same formulas, so equality up to 1e-12).
+template<typename SK>
+bool queries_match_fresh_view(const SK& s, std::string& why) {
+  if (s.is_empty()) return true;
+  auto v = s.get_sorted_view();
+  std::vector<float> items;
+  for (auto it = v.begin(); it != v.end(); ++it) { const float x = (*it).first; if (items.empty() || items.back() != x) items.push_back(x); }
+  std::vector<float> probes;
+  const size_t step = std::max<size_t>(1, items.size() / 6);
+  for (size_t i = 0; i < items.size(); i += step) probes.push_back(items[i]);
+  if (probes.back() != items.back()) probes.push_back(items.back());
+  for (float x : probes) for (int incl = 0; incl < 2; ++incl) {
+    const double a = s.get_rank(x, incl == 1), b = v.get_rank(x, incl == 1);
+    if (std::fabs(a - b) > 1e-12) { why = "get_rank(" + str(x) + (incl ? ",inclusive)=" : ",exclusive)=") + str(a) + " but fresh sorted view gives " + str(b) + " (get_n=" + std::to_string(s.get_n()) + ")"; return false; }
+  }
+  static const double ranks[5] = {0.0, 0.1, 0.5, 0.9, 1.0};
+  for (double rk : ranks) for (int incl = 0; incl < 2; ++incl) {
+    const float a = s.get_quantile(rk, incl == 1), b = v.get_quantile(rk, incl == 1);
+    if (a != b) { why = "get_quantile(" + str(rk) + (incl ? ",inclusive)=" : ",exclusive)=") + str(a) + " but fresh sorted view gives " + str(b); return false; }
+  }
+  for (int incl = 0; incl < 2; ++incl) {
+    auto c1 = s.get_CDF(probes.data(), static_cast<uint32_t>(probes.size()), incl == 1); auto c2 = v.get_CDF(probes.data(), static_cast<uint32_t>(probes.size()), incl == 1);
+    auto p1 = s.get_PMF(probes.data(), static_cast<uint32_t>(probes.size()), incl == 1); auto p2 = v.get_PMF(probes.data(), static_cast<uint32_t>(probes.size()), incl == 1);
+    if (c1.size() != c2.size() || p1.size() != p2.size()) { why = "get_CDF/get_PMF size differs from fresh sorted view"; return false; }
+    for (size_t i = 0; i < c1.size(); ++i) if (std::fabs(c1[i] - c2[i]) > 1e-12) { why = "get_CDF[" + std::to_string(i) + "]=" + str(c1[i]) + " but fresh sorted view gives " + str(c2[i]); return false; }
+    for (size_t i = 0; i < p1.size(); ++i) if (std::fabs(p1[i] - p2[i]) > 1e-12) { why = "get_PMF[" + std::to_string(i) + "]=" + str(p1[i]) + " but fresh sorted view gives " + str(p2[i]); return false; }
+  }
+  return true;
 }
 
 // what one execution observed besides the root sketch
@@ -157,6 +190,9 @@ struct ExecInfo {
   uint64_t flips = 0;
   uint32_t bad_views = 0;            // a mid-scenario get_sorted_view() that was not ascending or whose total weight was not get_n()
   uint32_t views_checked = 0;
+  uint32_t stale_queries = 0;        // a query method disagreed with a freshly built sorted view
+  uint32_t query_checks = 0;
+  std::string stale_why;
   uint32_t silent_compactions = 0;   // retained count dropped during an update without any coin flip (REQ negated coin reuse)
   uint32_t flips_in_merges = 0;
   uint32_t flips_in_rt = 0;
@@ -186,9 +222,10 @@ std::unique_ptr<typename Fam::SK> execute(const Scenario& sc, ExecInfo& info) {
       case OP_VIEW: {
         SK& s = *pool[o.a];
         if (s.is_empty()) break;
+        if (o.b == 3) { std::string why; if (!queries_match_fresh_view(s, why)) { if (!info.stale_queries) info.stale_why = why; info.stale_queries++; } info.query_checks++; }
         if (o.b == 1) { volatile double x = s.get_rank(o.v, true); (void)x; }
         else if (o.b == 2) { volatile float x = s.get_quantile(0.5); (void)x; }
-        else {
+        else if (o.b == 0 || o.b == 3) {
           auto v = s.get_sorted_view();
           bool ok = true, first = true; float prev = 0; uint64_t total = 0;
           for (auto it = v.begin(); it != v.end(); ++it) { const float x = (*it).first; if (!first && x < prev) ok = false; first = false; prev = x; total = (*it).second; }
@@ -281,6 +318,13 @@ void run_exhaustive(const Scenario& sc, unsigned f_expected) {
       return;
     }
     checked(info.views_checked);
+    if (info.stale_queries) {
+      checked();
+      fail(kp + "query-answer-differs-from-current-sorted-view", ctx + " outcome=" + std::to_string(o) + " inside the scenario (op chk<i>): " + info.stale_why + "; program=" + program_text(sc));
+      return;
+    }
+    checked(info.query_checks);
+    if (o == 0 && info.query_checks) count(fam + "_exh_scen_with_query_vs_view_check");
     // (3) n and total weight
     VF_CHECK(root->get_n() == n, kp + "n-not-true-n", ctx + " outcome=" + std::to_string(o) + " get_n=" + std::to_string(root->get_n()));
     if (n == 0) continue;
@@ -322,6 +366,7 @@ void run_exhaustive(const Scenario& sc, unsigned f_expected) {
       }
       checked(2 * nd);
       count(fam + "_exh_rank_crosschecks", 2 * nd);
+      { std::string why; checked(); if (!queries_match_fresh_view(*root, why)) fail(kp + "query-answer-differs-from-current-sorted-view", ctx + " outcome=" + std::to_string(o) + " final read-out: " + why + "; program=" + program_text(sc)); }
     }
     // (4) deterministic exact-region clause: wherever the sketch itself publishes zero error at the TRUE rank of a
     // stream value (REQ: lb == ub within 3k/n of the accurate end), the estimate must be that rank in EVERY outcome.
@@ -415,6 +460,7 @@ Shape gen_shape(Rng& r, bool want_merge) {
   Fam::gen_cfgs(r, sh.nsk, sh.cfg);
   sh.p_view = r.chance(0.3) ? 0.05 : 0.0;
   sh.p_qbm = r.chance(0.6) ? 0.8 : 0.0;
+  if (r.chance(0.5)) for (int i = 0; i < sh.nsk; ++i) sh.quantum.push_back(Fam::len_quantum(sh.cfg[static_cast<size_t>(i)]));
   sh.p_rt = (Fam::allow_rt() && r.chance(0.25)) ? 0.5 : 0.0;
   sh.p_move = r.chance(0.3) ? 0.5 : (r.chance(0.5) ? 0.0 : 1.0);
   sh.value_mode = static_cast<int>(r.below(7));
@@ -508,20 +554,38 @@ inline size_t value_at_rank(const Truth& t, double p) {
 
 // feed the (possibly permuted) stream: single sketch or 4 unequal contiguous chunks merged as ((0+1)+(2+3))
 template<typename Fam>
-std::unique_ptr<typename Fam::SK> feed(const Cell& c, const std::vector<float>& stream) {
+std::unique_ptr<typename Fam::SK> feed(const Cell& c, const std::vector<float>& stream, bool round_chunks = false) {
   typedef typename Fam::SK SK;
   if (c.merge == 0) {
     std::unique_ptr<SK> s(new SK(Fam::make(c.cfg)));
     for (float v : stream) s->update(v);
     return s;
   }
+  if (c.merge == 3) {
+    // an older sketch (first 1/21 of the stream) is merged into a FRESH one, which is queried and then receives the long rest
+    std::unique_ptr<SK> old_sk(new SK(Fam::make(c.cfg))), s(new SK(Fam::make(c.cfg)));
+    const size_t n0 = stream.size() / 21;
+    for (size_t j = 0; j < n0; ++j) old_sk->update(stream[j]);
+    s->merge(*old_sk);
+    { volatile double x = s->get_rank(stream[0], true); (void)x; }
+    for (size_t j = n0; j < stream.size(); ++j) s->update(stream[j]);
+    return s;
+  }
   static const double cut_default[5] = {0.0, 0.4, 0.7, 0.9, 1.0};
   const double* cut = c.merge == 2 ? Fam::mixed_cuts() : cut_default;
+  size_t bound[5];
+  for (int i = 0; i <= 4; ++i) bound[i] = static_cast<size_t>(cut[i] * static_cast<double>(stream.size()));
+  const size_t quantum = round_chunks ? static_cast<size_t>(Fam::chunk_quantum(c.cfg)) : 0;
+  if (quantum > 0 && stream.size() >= 8 * quantum) {
+    // every merge SOURCE (parts 1, 2, 3) gets a length that is a multiple of the quantum (classic: of 2k of every k involved, so
+    // the sources arrive with an empty base buffer); part 0, which is only ever a merge target, takes the remainder
+    size_t end = stream.size();
+    for (int i = 3; i >= 1; --i) { const size_t len = std::max<size_t>(1, (bound[i + 1] - bound[i] + quantum / 2) / quantum) * quantum; bound[i + 1] = end; bound[i] = end - len; end = bound[i]; }
+  }
   std::unique_ptr<SK> p[4];
   for (int i = 0; i < 4; ++i) {
     p[i].reset(new SK(Fam::make(c.merge == 2 ? Fam::mixed_cfg(c.cfg, i) : c.cfg)));
-    const size_t a = static_cast<size_t>(cut[i] * static_cast<double>(stream.size())), b = static_cast<size_t>(cut[i + 1] * static_cast<double>(stream.size()));
-    for (size_t j = a; j < b; ++j) p[i]->update(stream[j]);
+    for (size_t j = bound[i]; j < bound[i + 1]; ++j) p[i]->update(stream[j]);
   }
   // the destinations are queried right before each merge (as a monitoring loop does): the query sorts level 0 / the base
   // buffer as a side effect and the merge must not rely on that state afterwards
@@ -552,7 +616,7 @@ bool sorted_view_consistent(const SK& s, uint64_t n, std::string& why) {
 
 inline std::string cell_text(const char* fam, const std::string& cfg, const Cell& c) {
   return std::string(fam) + " sampled " + cfg + " n=" + std::to_string(c.n) + " order=" + order_name(c.order) +
-         " merge=" + (c.merge == 0 ? "none" : (c.merge == 1 ? "4-way" : "4-way-mixed-k")) + " trials=" + std::to_string(c.trials);
+         " merge=" + (c.merge == 0 ? "none" : (c.merge == 1 ? "4-way" : (c.merge == 2 ? "4-way-mixed-k" : "older-sketch-into-fresh-then-long-stream"))) + " trials=" + std::to_string(c.trials);
 }
 
 // mean-rank z-test shared by all families: mean estimated rank over the trials vs the true rank.
@@ -599,9 +663,12 @@ void sampled_cell_eps(const Cell& c, Rng& r) {
     ds::random_utils::random_bit.seed(static_cast<uint32_t>(s));
     ds::random_utils::rand.seed(s ^ 0x9e3779b97f4a7c15ULL);
     if (c.order == 1 || c.order == 2) r.shuffle(stream);
-    std::unique_ptr<SK> sk = feed<Fam>(c, stream);
+    const bool round_chunks = (trial & 1) == 1;   // odd trials: merge sources with lengths that are multiples of the family's buffer quantum
+    std::unique_ptr<SK> sk = feed<Fam>(c, stream, round_chunks);
     VF_CHECK(sk->get_n() == c.n, kp + "n-not-true-n", ctx + " get_n=" + std::to_string(sk->get_n()));
     { std::string why; const bool vok = sorted_view_consistent(*sk, c.n, why); VF_CHECK(vok, kp + "sorted-view-not-sorted", ctx + " trial=" + std::to_string(trial) + " " + why); }
+    { std::string why; const bool qok = queries_match_fresh_view(*sk, why); VF_CHECK(qok, kp + "query-answer-differs-from-current-sorted-view", ctx + " trial=" + std::to_string(trial) + (round_chunks ? " (quantised merge sources) " : " ") + why); }
+    if (round_chunks && c.merge && Fam::chunk_quantum(c.cfg) > 0) count(fam + "_smp_trials_sources_with_empty_base_buffer");
     eps1 = sk->get_normalized_rank_error(false);
     eps2 = sk->get_normalized_rank_error(true);
     double maxerr = 0;
